@@ -16,6 +16,7 @@ require (
 	github.com/gobwas/glob v0.2.3 // indirect
 	github.com/golang/protobuf v1.5.3 // indirect
 	github.com/google/uuid v1.3.0 // indirect
+	github.com/logrange/linker v0.0.0-20200625191800-a2d82c14f745 // indirect
 	github.com/oklog/ulid/v2 v2.1.0 // indirect
 	github.com/yuin/gopher-lua v1.1.0 // indirect
 	google.golang.org/genproto v0.0.0-20230306155012-7f2fa6fef1f4 // indirect
